@@ -145,6 +145,9 @@ func Execute(tt *testing.T, p *Prop, tape *Tape, verbose bool) *Run {
 		if s.SelectReorders > 0 {
 			r.Fault("select-case-order")
 		}
+		for k := range s.SelectHits {
+			r.Probe("select_case_ready_on_entry:" + k)
+		}
 		r.Truncated = r.Truncated || s.Truncated
 		r.Leaked = s.Leftover()
 		r.Hash = s.Hash() ^ r.Sig
